@@ -1,7 +1,8 @@
 // seqmc explorer shared by the sequential-history harnesses C10_maps.cpp, C08_histories.cpp and
-// C19_histories.cpp (DESIGN.md 2.2): every operation history up to a depth, the state IS the
-// history - each maximal history is replayed on fresh real objects in lock step with a reference
-// model, inside forked shards (vr::run_sharded) so a sanitizer abort is attributed to the history.
+// C19_histories.cpp (DESIGN.md 2.2): every operation history up to a depth, shortest first.  The state
+// IS the history - every history (of every length 1..depth) is replayed on fresh real objects in lock
+// step with a reference model, inside forked shards (vr::run_sharded) so that a sanitizer abort is
+// attributed to the history (cut at the step that died) and the shard resumes after it.
 //
 // A system `Sys` provides
 //   typedef Model;                        copyable reference-model state, used to enumerate
@@ -129,6 +130,22 @@ struct Ctx
   }
 };
 
+// The units run with ASAN_OPTIONS symbolize=0 so that a tree on which very many histories die is still
+// enumerated at a useful rate (the driver only needs the first line of the report).  A replay wants the
+// symbolized stacks: re-execute once with symbolize=1.
+inline void replay_symbolized(char **argv)
+{
+  const char *ao = getenv("ASAN_OPTIONS");
+  const char *key = "symbolize=0";
+  if (!ao || !strstr(ao, key))
+    return;
+  std::string s = ao;
+  s.replace(s.find(key), strlen(key), "symbolize=1");
+  setenv("ASAN_OPTIONS", s.c_str(), 1);
+  fflush(stdout);
+  execv("/proc/self/exe", argv);
+}
+
 inline void rm_rf_flat(const std::string &dir)
 {
   DIR *d = opendir(dir.c_str());
@@ -174,14 +191,16 @@ template <class Sys>
 struct Explorer
 {
   const Sys &sys;
-  int depth;
-  int P;  // histories are dealt to shards by their prefix of this length
-  int nshards;
+  int depth;       // histories of every length 1..depth are replayed, shortest first
+  int max_shards;
+  int level = 0;   // length being enumerated
+  int P = 0;       // histories are dealt to shards by their prefix of this length
+  int nshards = 1;
   Counters *shared = nullptr;
   std::string dir;
   std::vector<std::string> stepsig;  // slot signature context per operation
 
-  Explorer(const Sys &s, int d, int nsh = 64, int pfx = 3) : sys(s), depth(d), P(pfx < d ? pfx : d), nshards(nsh)
+  Explorer(const Sys &s, int d, int nsh = 64) : sys(s), depth(d), max_shards(nsh)
   {
     for (int i = 0; i < sys.nops(); i++) {
       std::string g = std::string(sys.sysname()) + "|" + sys.opclass(i);
@@ -191,7 +210,7 @@ struct Explorer
     }
   }
 
-  // ---- one maximal history on fresh objects
+  // ---- one history on fresh objects
   // returns the number of steps that were executed and fully checked without a finding
   int run_history(const std::vector<int> &ops, const std::string &full, const std::vector<int> &off, int observed_prefix,
       bool verbose, std::string *describe = nullptr)
@@ -240,12 +259,12 @@ struct Explorer
     return j;
   }
 
-  // ---- enumeration of one shard
+  // ---- enumeration of one shard: its share of the histories of length `level`
   void shard_body(int shard, long long resume_after)
   {
     prctl(PR_SET_PDEATHSIG, SIGKILL);  // no orphans when the driver kills the harness
     char sp[256];
-    snprintf(sp, sizeof sp, "%s/%s-%d.viol", dir.c_str(), sys.tag(), shard);
+    snprintf(sp, sizeof sp, "%s/%s-%d-%d.viol", dir.c_str(), sys.tag(), level, shard);
     spill().path = sp;
     if (resume_after >= 0)
       spill().load();
@@ -255,7 +274,7 @@ struct Explorer
     }
     std::vector<int> ops, prev, off;
     std::string full = std::string(sys.tag()) + ":";
-    std::vector<typename Sys::Model> ms(depth + 1, sys.initial());
+    std::vector<typename Sys::Model> ms(level + 1, sys.initial());
     long long idx = -1, pfx = -1;
     bool have_prev = false, stop = false;
     int prev_checked = 0;
@@ -279,21 +298,18 @@ struct Explorer
       if (have_prev)
         while (common < n && common < (int)prev.size() && prev[common] == ops[common])
           common++;
-      // steps whose full observation was already done, on this very prefix, by the previous history
+      // steps whose full observation was already done, on this very prefix, by the previous history of this
+      // shard (all proper prefixes were also replayed as histories of their own at the earlier levels)
       int p = common < prev_checked ? common : prev_checked;
-      // histories (= states) first reached by this one: its prefixes longer than the shared part
-      // (prefixes of length <= P are counted once by the parent)
-      int known = common > P ? common : P;
       if (sl)
         sl->index = idx;  // same as vr::begin_case; signature and replay are kept current per step
       else
         vr::begin_case(idx, "", "");
-      cn.states += n > known ? n - known : 0;
       cn.transitions += n;
       cn.traces += 1;
       std::string desc;
       // two written-out histories per alphabet: one early, one from the middle of a shard
-      const bool smp = (shard == 1 && idx == 0) || (shard == nshards / 2 && idx == 997);
+      const bool smp = level == depth && ((shard == 1 && idx == 0) || (shard == nshards / 2 && idx == 997));
       int done = run_history(ops, full, off, p, false, smp ? &desc : nullptr);
       if (smp && !desc.empty())
         vr::sample("[" + full + "] -> " + desc);
@@ -309,15 +325,13 @@ struct Explorer
         if (pfx % nshards != shard)
           return;
       }
-      if (lvl == depth) {
+      if (lvl == level) {
         leaf(lvl);
         return;
       }
-      bool any = false;
       for (int op = 0; op < nops && !stop; op++) {
         if (!sys.enabled(ms[lvl], op))
           continue;
-        any = true;
         ms[lvl + 1] = ms[lvl];
         sys.advance(ms[lvl + 1], op);
         ops.push_back(op);
@@ -331,73 +345,70 @@ struct Explorer
         full.resize(old);
         ops.pop_back();
       }
-      if (!any && lvl >= P && lvl > 0)
-        leaf(lvl);  // maximal although shorter than the depth
     };
     rec(0);
   }
 
-  // number of histories of length <= P (counted once, by the parent; model only)
-  long long count_prefix_nodes()
-  {
-    long long nodes = 0;
-    std::vector<typename Sys::Model> ms(P + 1, sys.initial());
-    std::function<void(int)> rec = [&](int lvl) {
-      nodes++;
-      if (lvl == P)
-        return;
-      for (int op = 0; op < sys.nops(); op++) {
-        if (!sys.enabled(ms[lvl], op))
-          continue;
-        ms[lvl + 1] = ms[lvl];
-        sys.advance(ms[lvl + 1], op);
-        rec(lvl + 1);
-      }
-    };
-    rec(0);
-    return nodes;
-  }
-
+  // Iterative deepening: all histories of length 1, then 2, ... then `depth`; so the first (and kept: shortest
+  // replay string) counterexample of a class is a shortest one, and teardown is checked from every reached state.
   void explore()
   {
     char d[128];
     snprintf(d, sizeof d, "/dev/shm/verif-%d", (int)getpid());
     dir = d;
     mkdir(dir.c_str(), 0700);
-    shared = (Counters *)mmap(nullptr, sizeof(Counters) * nshards, PROT_READ | PROT_WRITE, MAP_SHARED | MAP_ANONYMOUS, -1, 0);
-    memset(shared, 0, sizeof(Counters) * nshards);
+    shared = (Counters *)mmap(nullptr, sizeof(Counters) * max_shards, PROT_READ | PROT_WRITE, MAP_SHARED | MAP_ANONYMOUS, -1, 0);
     double t0 = vr::now_s();
-    vr::run_sharded(nshards, [&](int shard, long long resume_after) { shard_body(shard, resume_after); }, 16);
-    long long st = count_prefix_nodes(), tr = 0, tc = 0;
-    for (int i = 0; i < nshards; i++) {
-      st += shared[i].states;
-      tr += shared[i].transitions;
-      tc += shared[i].traces;
-    }
-    munmap(shared, sizeof(Counters) * nshards);
-    rm_rf_flat(dir);
-    {  // one line instead of one per shard
-      std::lock_guard<std::mutex> g(vr::S().m);
-      std::vector<std::string> keep;
+    long long tr = 0, tc = 0, last_level = 0;
+    int completed = 0;
+    std::string cap;
+    for (level = 1; level <= depth; level++) {
+      if (vr::deadline_passed()) {
+        cap = "deadline reached before depth " + std::to_string(level) + " was started";
+        break;
+      }
+      P = level < 3 ? level : 3;
+      nshards = level <= 3 ? (max_shards < 4 ? max_shards : 4) : max_shards;
+      memset(shared, 0, sizeof(Counters) * max_shards);
+      vr::run_sharded(nshards, [&](int shard, long long resume_after) { shard_body(shard, resume_after); }, 16);
+      last_level = 0;
+      for (int i = 0; i < nshards; i++) {
+        tr += shared[i].transitions;
+        last_level += shared[i].traces;
+      }
+      tc += last_level;
+      // one line instead of one per shard
       int cut = 0;
-      const std::string mine = std::string(sys.tag()) + ": deadline reached";
-      for (auto &c : vr::S().capped)
-        if (c.compare(0, mine.size(), mine) == 0)
-          cut++;
-        else
-          keep.push_back(c);
-      if (cut)
-        keep.push_back(mine + " in " + std::to_string(cut) + " of " + std::to_string(nshards) + " shards: " + std::to_string(tc) + " maximal histories of depth " + std::to_string(depth) + " were replayed, the enumeration is incomplete");
-      vr::S().capped = keep;
+      {
+        std::lock_guard<std::mutex> g(vr::S().m);
+        std::vector<std::string> keep;
+        const std::string mine = std::string(sys.tag()) + ": deadline reached";
+        for (auto &c : vr::S().capped)
+          if (c.compare(0, mine.size(), mine) == 0)
+            cut++;
+          else
+            keep.push_back(c);
+        vr::S().capped = keep;
+      }
+      if (cut) {
+        cap = "deadline reached at depth " + std::to_string(level) + " (" + std::to_string(cut) + " of " + std::to_string(nshards) + " shards incomplete, "
+            + std::to_string(last_level) + " histories of that length replayed)";
+        break;
+      }
+      completed = level;
     }
-    vr::stat("states", st);
+    munmap(shared, sizeof(Counters) * max_shards);
+    rm_rf_flat(dir);
+    if (!cap.empty())
+      vr::capped(std::string(sys.tag()) + ": " + cap + "; every history of length <= " + std::to_string(completed) + " was replayed");
+    vr::stat("states", tc + 1);  // histories reached, the empty one included
     vr::stat("transitions", tr);
     vr::stat("traces", tc);
     vr::stat(std::string("histories_") + sys.tag(), tc);
-    vr::stat("max_depth", depth);
+    vr::stat(std::string("max_depth_completed_") + sys.tag(), completed);
     char b[320];
-    snprintf(b, sizeof b, "%s: depth %d, alphabet %d, %lld histories (incl. prefixes) reached, %lld maximal histories replayed, %lld operations, %.1fs",
-        sys.tag(), depth, sys.nops(), st, tc, tr, vr::now_s() - t0);
+    snprintf(b, sizeof b, "%s: alphabet %d, every history of length 1..%d replayed on fresh objects: %lld histories (%lld of length %d), %lld operations, %.1fs",
+        sys.tag(), sys.nops(), completed, tc, completed == depth ? last_level : 0LL, depth, tr, vr::now_s() - t0);
     vr::note(b);
   }
 
